@@ -117,9 +117,23 @@ theorem cStmt_ret (lv : Nat) (st : Stmt) (lb : Nat) (hg : cgStmt lv st = true) :
       split
       · exact Ret.fail _
       · exact Ret.pure ⟨by simp, fun _ => loneJump_cons_op _ _⟩
-  | label _ => simp [cgStmt] at hg
-  | jump _ => simp [cgStmt] at hg
-  | call _ => simp [cgStmt] at hg
+  | label n =>
+    simp only [cStmt, labelStmt]
+    exact Ret.bind (fun _ => Ret.pure ⟨by simp, fun _ => rfl⟩)
+  | jump n =>
+    simp only [cStmt, jumpStmt]
+    exact Ret.bind (fun _ => Ret.bind (fun _ => Ret.pure ⟨by simp, fun h => by simp [isExit] at h⟩))
+  | call n =>
+    simp only [cStmt, callStmt]
+    intro s r s' h
+    simp only [bind_ok, pure_ok] at h
+    obtain ⟨i, s1, _, o, s2, h2, h3⟩ := h
+    simp only [Prod.mk.injEq] at h3
+    obtain ⟨rfl, _⟩ := h3
+    obtain ⟨rfl, _⟩ := genOp_spec h2
+    exact ⟨by simp, fun _ => by
+      have : (Gen.op_call == Gen.op_jump) = false := by decide
+      simp [loneJump, this]⟩
   | macroCall _ _ => simp [cgStmt] at hg
 
 /-- a case body that is not a single exit statement is not collected as a lone jump -/
